@@ -103,7 +103,8 @@ reg("C12", ["c12_slip.c"], level="fault_enumeration",
          "a short payload is encoded with the decoder's own context and compared with the reference encoding, the "
          "context with its state before), (c) as garbage "
          "prefix before three well-formed frames (delivered frames must end with the last two, or all three when the "
-         "prefix is empty or - classic mode - ends in a delimiter); each in classic and start-of-frame mode with "
+         "prefix is empty or - classic mode - ends in a delimiter; the stream is read in one piece and with the source "
+         "failing once behind the prefix, before its last octet and at one more position inside it); each in classic and start-of-frame mode with "
          "octet and chunk style source and sink drivers (8 configurations); (d) strings of length <= 5 and every "
          "7th longer one: a source error at every input position and a sink error at every output position of "
          "encoder and decoder; injected error codes vary over small, large and count-like values. 'octets': every "
@@ -123,7 +124,8 @@ reg("C17", ["c17_endpoints.c"], level="fault_enumeration",
     rule="'exact': every driver behaviour script of length <= 5 (quick) / <= 8 (thorough) over {1, 0, EINTR, EAGAIN, "
          "hard error} for octet-style and {1, 2, k=3, all asked, 0, EINTR, EAGAIN, hard error} for chunk-style "
          "drivers (after the script the driver moves everything asked), for N = 1..6, through source_get_chunk, "
-         "sink_put_chunk and both at-most variants; 'invalid': N = 0 and N > SSIZE_MAX; 'plumb': every pair of "
+         "sink_put_chunk and both at-most variants; 'invalid': N = 0 and N > SSIZE_MAX; 'nothing': at-most transfers of zero octets and the aux functions with a "
+         "full auxiliary buffer (nothing may move, nothing may be written); 'plumb': every pair of "
          "source and sink scripts up to length 3 (thorough 4) over {1, 2, all, hard error} x N = 1..6 x stream "
          "longer/shorter than N x 4 driver-style combinations x sink error EIO/ENOMEM, through sts_cbc, sts_n_cbc, "
          "sts_drain_cbc, sts_n, sts_drain and the four _aux variants with auxiliary buffers of size 1..8 holding 0..6 "
@@ -151,7 +153,8 @@ reg("C13", ["c13_lenp.c"],
          "around 127/128, 255/256, 16383/16384, 65535/65536; 'huge': 2^32-2..2^32+1, SSIZE_MAX-20..SSIZE_MAX+1, "
          "UINT64_MAX into a counting sink; 'dec': 3 decoder entry points x destination capacity len-1/len/len+1 x "
          "octet/chunk sources with random fragmentation x 1..3 frames back to back (chunk sources also exposing a "
-         "3..80 octet transfer window through getbuffer); 'frag': every fragmentation (2^(L-1) cut masks) of short "
+         "3..80 octet transfer window through getbuffer; a third of the window-less sources that feed fixed-width 16/32-bit "
+         "prefixes into the memory and buffer decoders return 0 - nothing yet, try again - now and then); 'frag': every fragmentation (2^(L-1) cut masks) of short "
          "two-frame streams; 'tunnel': the four sink entry points x 6 kinds writing into a sink whose driver wraps "
          "every chunk into an inner frame (one-octet or varint prefix) on a lower sink - nested encoder calls. Calls "
          "with the variable-length kind go through the lenp_* wrappers every second time. A signature is (generator, kind, length[, entry]); "
@@ -165,7 +168,7 @@ reg("C20", ["c20_sx.c"],
          "48879} (unranked from a counting recurrence; every 23rd tree from a seeded offset in quick, all in "
          "thorough), rendered with three whitespace policies and decimal / #x lower / #x upper / mixed number "
          "formats, with and without trailing material, parsed NUL-terminated, length-delimited (exact-size "
-         "poisoned block without terminator) and with sx_parse() from a start offset behind other text; 'strings-N': every string of length N <= 5 (quick) / <= 7 (thorough) "
+         "poisoned block without terminator) and with sx_parse() from a start offset behind other text; integers with leading zeros in fields of 19..1000 digits; 'strings-N': every string of length N <= 5 (quick) / <= 7 (thorough) "
          "over '( ) space newline a 1 0 # x F' judged by a reference reader (verdict, tree, position); 'random': "
          "parenthesis-heavy random strings up to 39 characters. Every case checks the allocation ledger (bytes "
          "allocated before the parse == after sx_destroy) and, on error, that no tree is returned. A signature is "
@@ -188,7 +191,9 @@ reg("C10", ["c10_pstore.c"],
          "auxiliary buffers none/1/7/255/256/4096/65535/65536/size-1/size/size+1 at placements 4093 and top of "
          "the address space. 'remarkable': images constructed so that their checksum is 0 and all-ones for each "
          "algorithm (last octets searched; for the 32-bit sum the initial value is solved for), stored whole and "
-         "completed by a partial store, every single-octet alteration, blank media (all 00, all ff). A signature "
+         "completed by a partial store, every single-octet alteration, blank media (all 00, all ff). 'pages': a medium whose writes stop at page "
+         "boundaries (pages of 2, 3, 4, 8 octets, every placement) and report the short count: an operation that "
+         "reports success must leave a valid image that holds the model. A signature "
          "is a configuration "
          "(size, placement, checksum, aux size); evaluations counts operations checked.",
     assumptions=["the medium callbacks return exactly what was asked (faults are the subject of C11)",
@@ -308,7 +313,8 @@ reg("C06", ["c06_regp_exec.c"],
          "directly on the same state. 'bigblock': 104 units = {serial,TCP} x {8,16-bit} x {read,write} x word counts "
          "{129,365,1000,16383,16384,32767,32768,32769,40000,65535,65536,65537,70001} through an allocator with "
          "300000-octet blocks, payloads compared in full. Every other session has noise between its requests "
-         "(damaged, truncated, oversized frames, allocation failures), every other pair of sessions a second "
+         "(damaged, truncated, oversized frames, allocation failures, and - judged: never executed, never acknowledged - "
+         "write requests that announce 2^16..2^31 more words than they carry), every other pair of sessions a second "
          "instance with the opposite transport and word size serving requests in between. 'marathon': 70000 requests "
          "on one instance; 'pipeline': 2..6 requests back to back in the source, through octet sources and sources "
          "exposing a 1..80 octet transfer window. A signature is a (unit, session); evaluations counts frames "
@@ -344,7 +350,9 @@ reg("C07", ["c07_regp_corrupt.c"], level="fault_enumeration",
          "(quick) / 4000 (thorough) sessions valid request, damaged request, valid request on a serial channel served "
          "by the loop documented in regp_recv() with one RPMaybeFrame; the damage is applied behind the SLIP encoder: "
          "every single-bit flip of the wire octets, two-bit flips (<= 9 bits apart plus a seeded sample), bursts of "
-         "2..16 bits, every octet lost or duplicated. A signature is a unit; evaluations counts mutated/generated "
+         "2..16 bits, every octet lost or duplicated. 'fill': on TCP, write requests that fill the frame block to its last "
+         "octet and twins with 1-5 stray octets, from octet sources and chunk sources with transfer windows of 2..64 "
+         "octets, blocks 96/128/129/200. A signature is a unit; evaluations counts mutated/generated "
          "frames and sessions judged. Every seventh frame meets a reply channel that is down (all sink writes "
          "refused): classification, no execution and no acknowledgement are judged as before, the reply's form is not.",
     assumptions=["reading choices of the reference decoder (DESIGN.md section 7, C07): a checksum field occupies a "
